@@ -243,14 +243,14 @@ impl Check for TermCheck {
             Flavor::C03 => format!("C03 log lines: the C01/C02 generators biased to println (bar and mp level, empty, multi-line, wider than the terminal), suspend with printing closures, finish/drop in every order, remove, clear, and rate limited targets (1..255 Hz) with bursts at one instant so that ordinary draws are skipped while dropped bars wait to be reaped; only violations in which a printed line is missing, duplicated, reordered or overwritten are reported under C03. One scenario in five is a scheduled one (mode sched): one or two threads print (println, external output inside suspend with scheduling points and virtual sleeps inside the closure; bar level and MultiProgress level) while other simulated threads and optionally a steady ticker draw the same bars under a seeded scheduler; every line whose call returned must be on the terminal exactly once at every later flush and at the end, each thread's lines in emission order. {common}"),
             Flavor::C04 => format!("C04 finishing: every ProgressFinish variant through explicit calls, with_finish + drop of the last handle (clones dropped in any order), finish_using_style and iterator exhaustion, after histories that exhaust both rate limiters at the finishing instant; standalone and MultiProgress; the forced final frame must be painted and show the final state; visibly finished dropped bars stay until println/clear/suspend/remove. {common}"),
             Flavor::C16 => format!("C16 tabs: random order of with_tab_width/set_tab_width (0,1,2,4,8,13), with_style/set_style (templates with literal tabs and a custom key whose output contains tabs), with_message/set_message/with_prefix/set_prefix/finish_with_message/abandon_with_message/with_finish(WithMessage)+drop with 0..5 tabs each (the four builder calls in all 24 orders), ticks; additionally no string passed to the terminal may contain a TAB and message()/prefix() must return the text expanded with the current tab width. One scenario in ten is a scheduled one (mode sched): one thread sets messages and prefixes with tabs, another changes the tab width, a third draws, on clones of one bar under the seeded scheduler; afterwards message()/prefix() and the frame must be the last texts expanded with the last width. {common}"),
-            Flavor::C19 => format!("C19 geometry: terminal sizes W,H in 1..8 (plus a few larger), MultiProgress with up to 12 bars of 1..3 lines and single bars, histories growing the set of bars past the terminal height and shrinking it again; when the bars need more rows than the terminal has, the region must be the leading lines (or leading whole bars) that fit, nothing of the region may scroll out of reach and later frames must leave no remnant. {common}"),
+            Flavor::C19 => format!("C19 geometry: terminal sizes W,H in 1..8 (plus a few larger), MultiProgress with up to 12 bars of 1..3 lines and single bars, histories growing the set of bars past the terminal height and shrinking it again; when the bars need more rows than the terminal has, the region must be the leading lines (or leading whole bars) that fit, nothing of the region may scroll out of reach and later frames must leave no remnant; in one history in three the window gets another height between calls (taller: rows come back from the scrollback or blank rows are added; shorter: only when blank rows below the cursor can go) and the next frame must be cut for the height the terminal has then - omitted bars appear as soon as there is room. {common}"),
         }
     }
     fn assumptions(&self) -> Vec<String> {
         vec![
             "SimTerm's xterm semantics (deferred wrap, CUU/CUD clamped to the screen, EL 2) — cross-checked against the vt100 crate at every flush in 1 of 8 runs; a disagreement is a harness error".into(),
             "templates contain the custom key {obs} (observation channel: tells the oracle when a bar rendered); time-dependent keys, {bar}, width/alignment specifiers are excluded (C10–C13 are separate properties)".into(),
-            "not generated: set_move_cursor(true), terminal resize, set_draw_target on members, re-entrant callbacks, double-width characters straddling the right margin, index-based inserts while dropped leading bars may still be counted by the implementation, suspend on a bar that was removed from its MultiProgress".into(),
+            "not generated: set_move_cursor(true), a terminal whose width changes within a history (a changing height is generated for C19 only), set_draw_target on members, re-entrant callbacks, double-width characters straddling the right margin, index-based inserts while dropped leading bars may still be counted by the implementation, suspend on a bar that was removed from its MultiProgress".into(),
             "a dropped, visibly finished bar may disappear after any println/clear/suspend/remove (most permissive reading of C02/C04)".into(),
         ]
     }
@@ -336,6 +336,11 @@ impl Check for TermCheck {
             sc.set("pty", 1);
             sc.set("xcheck", 0);
             sc.mode = format!("{}+pty", sc.mode);
+        }
+        // C19: in one history in three the window gets another height now and then (same width)
+        let resizing = fl == Flavor::C19 && sc.c("pty") == 0 && rng.chance(1, 3);
+        if resizing {
+            sc.set("xcheck", 0);
         }
         let special = rng.chance(1, 2);
         let w = w as usize;
@@ -429,6 +434,9 @@ impl Check for TermCheck {
                 ops.push(Op::new("advance").n(gen_gap(rng, hz)));
             } else if burst && rng.chance(1, 10) {
                 ops.push(Op::new("advance").n(gen_gap(rng, hz)));
+            }
+            if resizing && rng.chance(1, 8) {
+                ops.push(Op::new("resize_h").n(if rng.chance(1, 6) { 30 } else { rng.range(1, 10) }));
             }
             let b = rng.below(nbars.max(1) as u64);
             if multi {
